@@ -54,6 +54,7 @@ Aspects == CASE Focus = "all"    -> AllAspects
              [] Focus = "C01race" -> {"total"}
              [] Focus = "C05race" -> {"nonce"}
              [] Focus = "C07race" -> {"withdraw", "nonce"}
+             [] Focus = "C09bin" -> {"sel"}      \* the built binary: only replies and agent calls are observable
              [] Focus = "C11"    -> {"peers"}
              [] Focus = "C19"    -> {"uri"}
 F(x) == x \in Aspects
@@ -113,7 +114,7 @@ Adopt(T, st) ==
 Finish(T, ln) ==
     /\ Chk("time@StoreTrace:97", F("time") => ln.now = T.now)
     /\ ObsOK(T, ln.st)
-    /\ S' = IF Focus = "all" THEN T ELSE Adopt([T EXCEPT !.now = ln.now], ln.st)
+    /\ S' = IF Focus \in {"all", "C09bin"} THEN T ELSE Adopt([T EXCEPT !.now = ln.now], ln.st)
     /\ l' = l + 1
     /\ UNCHANGED W
 
